@@ -90,6 +90,7 @@ struct WorldCfg {
     bool with_control = true;
     bool with_error_cb = true;
     bool with_flush = true;
+    bool with_reset = true;
     bool control_err = false;   // the control (SRQ) callback reports failure
 };
 
